@@ -20,6 +20,8 @@ generated form case.
 -/
 import Proofs.Lemmas.EndToEndDrop
 import Proofs.Lemmas.EndToEndNodup
+import Proofs.Lemmas.EndToEndHNodup
+import Proofs.C02OrderStable
 import Proofs.C12Form
 import Proofs.C01SparseAll
 namespace Flatland.EndToEnd.Proofs
@@ -123,5 +125,125 @@ theorem end_to_end_exact (env : Env) (s : Schema) (e : Elem) (t : FormTree)
     (hpost : browserSubmit (seenOf Tables.current freshGen.ctx) (some 0) (renderForm [] t) = .ok ps) :
     fromFlat env usep s ps = e := by
   rw [end_to_end_partial env s e t h ps hpost, hfix]
+
+/-! ### without `hnodupB`: "no Array / MultiValue with two or more members" is enough
+
+`hnodupB` — C02's hereditary "no key twice", evaluated on the form's own pairs — FOLLOWS from the
+state-level test `narrowB s e` (`Proofs/Lemmas/EndToEndHNodup.lean`: `hnodup_flatten`, an induction on
+the schema through C01's canonical paths, carried across the permutation by `hnodup_perm`).  The
+theorems below are the ones above with `hypsN` (= `hyps` with `narrowB s e` in place of `hnodupB …`). -/
+
+/-- the core, with the state-level hypothesis -/
+theorem fromFlat_formPairs_narrow (env : Env) (s : Schema) (e : Elem) (t : FormTree)
+    (henv : EnvOK env) (hs : SepSafe env usep (Tok s)) (hw : wf s = true) (hroot : rootOK s = true)
+    (hok : OkS env s e) (hlink : embed t = resolve env s e) (hcan : boolsCanonical t = true)
+    (hnar : narrowB s e = true)
+    (hdrop : uncheckedPairs [] t = [] ∨ dropSafe env s = true) :
+    fromFlat env usep s (formPairs [] t) = prS env usep false s e := by
+  have hperm : (flatten env usep s e).Perm (formPairs [] t ++ uncheckedPairs [] t) := by
+    unfold flatten
+    rw [← hlink]
+    exact formPairs_flatten t
+  exact fromFlat_formPairs env s e t henv hs hw hroot hok hlink hcan
+    (hnodup_flatten_perm env usep s e hs henv hw hroot hok hnar _ hperm) hdrop
+
+/-- the executable hypotheses `hypsN`, unpacked -/
+theorem hypsN_unpack {T : Tables} {env : Env} {s : Schema} {e : Elem} {t : FormTree}
+    (h : hypsN T env s e t = true) :
+    embed t = resolve env s e ∧ formOk T [] t = true ∧ oneSubmitter t = true ∧ boolsCanonical t = true ∧
+    wf s = true ∧ rootOK s = true ∧ OkS env s e ∧ EnvOK env ∧ SepSafe env usep (Tok s) ∧
+    narrowB s e = true ∧ (uncheckedPairs [] t = [] ∨ dropSafe env s = true) := by
+  simp only [hypsN, Bool.and_eq_true, Bool.or_eq_true, List.isEmpty_iff] at h
+  obtain ⟨⟨⟨⟨⟨⟨⟨⟨⟨⟨hl, hf⟩, hsub⟩, hcan⟩, hw⟩, hroot⟩, hok⟩, henv⟩, hns⟩, hnar⟩, hdrop⟩ := h
+  have henv' := envOKB_sound env henv
+  exact ⟨fnodeBeq_sound _ _ hl, hf, hsub, hcan, by rw [← wfS_eq]; exact hw, hroot, okSB_sound env s e hok,
+    henv', namesSafe_sound env s henv' hns, hnar, hdrop⟩
+
+/-- under `hypsN` the form's own pairs satisfy C02's `HNodup` — the hypothesis `hnodupB` stood for -/
+theorem hypsN_hnodup {T : Tables} {env : Env} {s : Schema} {e : Elem} {t : FormTree}
+    (h : hypsN T env s e t = true) :
+    HNodup env usep s (wrap (formPairs [] t ++ uncheckedPairs [] t)) := by
+  obtain ⟨hl, _, _, _, hw, hroot, hok, henv, hs, hnar, _⟩ := hypsN_unpack h
+  have hperm : (flatten env usep s e).Perm (formPairs [] t ++ uncheckedPairs [] t) := by
+    unfold flatten
+    rw [← hl]
+    exact formPairs_flatten t
+  exact hnodup_flatten_perm env usep s e hs henv hw hroot hok hnar _ hperm
+
+/-- `hypsN` is a special case of `hyps`: the test `hnodupB` the runner evaluates holds whenever the
+    state-level test does (the converse fails: an Array holding `['', 'x']` that prunes empty values
+    passes `hnodupB` but not `narrowB`, `exPrunedArr_hyps`) -/
+theorem hypsN_hyps {T : Tables} {env : Env} {s : Schema} {e : Elem} {t : FormTree}
+    (h : hypsN T env s e t = true) : hyps T env s e t = true := by
+  have hnd := hnodupB_complete env usep s _ (hypsN_hnodup h)
+  simp only [hypsN, Bool.and_eq_true, Bool.or_eq_true] at h
+  obtain ⟨⟨⟨⟨⟨⟨⟨⟨⟨⟨hl, hf⟩, hsub⟩, hcan⟩, hw⟩, hroot⟩, hok⟩, henv⟩, hns⟩, hnar⟩, hdrop⟩ := h
+  simp only [hyps, Bool.and_eq_true, Bool.or_eq_true]
+  exact ⟨⟨⟨⟨⟨⟨⟨⟨⟨⟨hl, hf⟩, hsub⟩, hcan⟩, hw⟩, hroot⟩, hok⟩, henv⟩, hns⟩, hnd⟩, hdrop⟩
+
+/-- **END TO END, any generator context, without `hnodupB`.** -/
+theorem end_to_end_narrow_at (T : Tables) (ctx : Ctx) (hT : TablesOK T)
+    (hL : Live T ctx) (env : Env) (s : Schema) (e : Elem) (t : FormTree)
+    (h : hypsN T env s e t = true) (ps : List Pair)
+    (hpost : browserSubmit (seenOf T ctx) (some 0) (renderForm [] t) = .ok ps) :
+    fromFlat env usep s ps = prS env usep false s e := by
+  obtain ⟨hl, hf, hsub, hcan, hw, hroot, hok, henv, hs, hnar, hdrop⟩ := hypsN_unpack h
+  rw [form_roundtrip T ctx hT hL t hf hsub ps hpost]
+  exact fromFlat_formPairs_narrow env s e t henv hs hw hroot hok hl hcan hnar hdrop
+
+/-- **END TO END** with the hypothesis "no Array / MultiValue of the element holds two or more
+    members" (`narrowB s e`, a test on the STATE) in place of `hnodupB` (a test on the keys): on
+    `Generator()` with the tables of the current source, for every form tree `t` that renders the
+    element state `e` of schema `s` and meets `hypsN`, what a browser posts for the unchanged form, read
+    back with `from_flat`, is `prS e`.  `narrowB` is what C02's `order_free` needs (`exArr2_only_narrow_fails`: with two members
+    `HNodup` fails and the order of the pairs IS the order of the members); the conclusion itself
+    survives there (`exArr2_still_rebuilds`) — the per-key stable composition, not proved. -/
+theorem end_to_end_narrow_partial (env : Env) (s : Schema) (e : Elem) (t : FormTree)
+    (h : hypsN Tables.current env s e t = true) (ps : List Pair)
+    (hpost : browserSubmit (seenOf Tables.current freshGen.ctx) (some 0) (renderForm [] t) = .ok ps) :
+    fromFlat env usep s ps = prS env usep false s e :=
+  end_to_end_narrow_at _ _ tablesOK_current fresh_live env s e t h ps hpost
+
+/-- … total form: there IS a posted list, and it rebuilds `prS e` -/
+theorem end_to_end_narrow_total (env : Env) (s : Schema) (e : Elem) (t : FormTree)
+    (h : hypsN Tables.current env s e t = true) :
+    ∃ ps, browserSubmit (seenOf Tables.current freshGen.ctx) (some 0) (renderForm [] t) = .ok ps ∧
+      fromFlat env usep s ps = prS env usep false s e := by
+  obtain ⟨_, hf, hsub, _⟩ := hypsN_unpack h
+  have hp := form_roundtrip_fresh t hf hsub
+  exact ⟨_, hp, end_to_end_narrow_partial env s e t h _ hp⟩
+
+/-- … through `prepareTag`, the way the runner makes the tag calls -/
+theorem end_to_end_narrow_generator (env : Env) (s : Schema) (e : Elem) (t : FormTree)
+    (h : hypsN Tables.current env s e t = true) :
+    ∃ ps, browserSubmit (seenVia Tables.current Flatland.Generated.C11.staticAttributeOrder freshGen) (some 0)
+        (renderForm [] t) = .ok ps ∧ fromFlat env usep s ps = prS env usep false s e := by
+  obtain ⟨hl, hf, hsub, hcan, hw, hroot, hok, henv, hs, hnar, hdrop⟩ := hypsN_unpack h
+  exact ⟨_, form_roundtrip_fresh_generator t hf hsub,
+    fromFlat_formPairs_narrow env s e t henv hs hw hroot hok hl hcan hnar hdrop⟩
+
+/-! ### Arrays with two or more members: the composition through the STABLE `order_free`
+
+`order_free_stable` (Proofs/C02OrderStable.lean) lets the composition go through for Arrays of any size,
+GIVEN its two hereditary conditions on the element's own pairs: `HNodupA` (no scalar's key twice) and
+`ASame` (document order and breadth-first order hand every Array its pairs in the same order).  Both
+are believed to hold for every canonical `flatten` output / every form (the form walks the members of
+an Array in member order); here they are hypotheses — decidable on examples (`exArr2_via_stable`) —,
+and the form must have no unchecked box (`drop_setFlat` is about `HNodup`).  Deriving them from
+`hypsN` minus `narrowB` is what is left of `end_to_end_arrays_partial`. -/
+
+theorem fromFlat_formPairs_stable (env : Env) (s : Schema) (e : Elem) (t : FormTree)
+    (henv : EnvOK env) (hs : SepSafe env usep (Tok s)) (hw : wf s = true) (hroot : rootOK s = true)
+    (hok : OkS env s e) (hlink : embed t = resolve env s e)
+    (hnd : HNodupA env usep s (wrap (flatten env usep s e)))
+    (hsame : ASame env usep s (wrap (flatten env usep s e)) (wrap (formPairs [] t)))
+    (hun : uncheckedPairs [] t = []) :
+    fromFlat env usep s (formPairs [] t) = prS env usep false s e := by
+  have hperm : (flatten env usep s e).Perm (formPairs [] t) := by
+    have := formPairs_flatten t
+    rw [hun, List.append_nil, hlink] at this
+    exact this
+  rw [← order_free_stable env usep s _ _ hnd hperm hsame]
+  exact roundtrip_sparse env usep s e hs henv hw hroot hok
 
 end Flatland.EndToEnd.Proofs
